@@ -40,6 +40,7 @@ func init() {
 			{ID: "C02.S3", Doc: "a stream cannot finish (and let its successor start) before its terminal packet is written", Alias: "C03.R8"},
 			{ID: "C02.S4", Alias: "C03.R9"},
 			{ID: "C02.S5", Doc: "the connection reader's buffer is lent to one decoder at a time: a packet handed out by packetBuffer.Get is marked held until Done, and Put/Close wait for it (otherwise the next stream's bytes overwrite a message still being decoded)", Alias: "C01.R4"},
+			{ID: "C02.S7", Doc: "bytes of an abandoned call's unfinished packet are discarded before the next call's packet is measured against the size limit", Alias: "C09.R4"},
 			{ID: "C02.S6", Doc: "the reader waits only for the stream of an invoke it forwarded: a packet of an abandoned call (metadata or cancel without invoke) is dropped instead of being held for, and delivered to, the next stream", Alias: "C06.R3"},
 		},
 	})
